@@ -29,6 +29,9 @@ structure Plan where
   feeds : List (ColDef × Option Expr)
   /-- `_gather_indexes_from_both_tables()`, evaluated after the rename -/
   gather : Except Err (List Index)
+  /-- `impl.transactional_ddl` (dialect default or the `transactional_ddl` option of the context).  `_create` does
+      not consult it: no function below reads this field, so every theorem holds for both values. -/
+  transactionalDdl : Bool := false
 
 def State.plan (st : State) : Plan :=
   { newSchema := st.newSchema, tmpIndexes := st.tmpIndexes, feeds := st.feeds, gather := st.gatherIndexes }
@@ -124,9 +127,10 @@ structure Outcome where
 
 /-- `with op.batch_alter_table(t, recreate=…, copy_from=…) as b: ops` on a connection whose database is `db` -/
 def runBatch (ct : ConvTable) (tableName : String) (reflected always : Bool) (ops : List BatchOp)
-    (fault : Option Nat) (commitOnError : Bool) (db : Db) : Outcome :=
+    (fault : Option Nat) (commitOnError : Bool) (db : Db) (mode : ConnMode := .pysqliteLegacy)
+    (transactionalDdl : Bool := false) : Outcome :=
   let ops := expandOps tableName ops
-  let c0 := Conn.fresh db
+  let c0 := Conn.start mode db
   if queueError always [] ops then { recreated := false, trace := [], err := some .commandError, final := db }
   else if !shouldRecreate always ops then
     let x := execAll ct fault (Run.start c0) (directStmts ops)
@@ -141,7 +145,7 @@ def runBatch (ct : ConvTable) (tableName : String) (reflected always : Bool) (op
         if !distinct (st.columns.map (·.2.name)) then
           { recreated := true, trace := [], err := some .duplicateColumnPy, final := db }
         else
-          let x := create ct fault st.plan (Run.start c0)
+          let x := create ct fault { st.plan with transactionalDdl := transactionalDdl } (Run.start c0)
           { recreated := true, trace := x.1.trace, err := x.2, final := (finish commitOnError x).committed }
 
 end Model.Batch
